@@ -23,7 +23,7 @@ SCRIPTS = {
     "erroring": "a = 1;\n1 + \"x\";\nb = 2;",
     "error-in-call": "a = call {1;\n [] select 3;\n 2};\nb = 2;",
 }
-MT_SCRIPTS = {"ok": ("a = 1;", 3, 0), "err": ('1 + "x";', 3, 3)}
+MT_SCRIPTS = {"ok": ("a = 1;", 3, 0), "err": ('1 + "x";', 3, 3), "long": (" ".join("a = %d;" % i for i in range(12)), 6, 0)}
 
 
 def mc_cfg(name, ideal, err, calls_e="any", calls_c="any", observed=None, work=3, collect=False):
@@ -33,7 +33,7 @@ def mc_cfg(name, ideal, err, calls_e="any", calls_c="any", observed=None, work=3
         return "<<>>" if x == "any" else "<<" + ", ".join('"%s"' % a for a in x) + ">>"
     recs = []
     for o in observed or []:
-        recs.append('[e |-> %s, c |-> %s, state |-> "%s", loaded |-> %s]' % (tl(o["e"]), tl(o["c"]), o["state"], "TRUE" if o["loaded"] else "FALSE"))
+        recs.append('[e |-> %s, c |-> %s, state |-> "%s", loaded |-> %s, after |-> %d]' % (tl(o["e"]), tl(o["c"]), o["state"], "TRUE" if o["loaded"] else "FALSE", o.get("after", 0)))
     mod = "gen_%s" % name
     with open(os.path.join(vlib.SPEC, mod + ".tla"), "w") as f:
         f.write("---- MODULE %s ----\nEXTENDS Control_MC\nDefE == %s\nDefC == %s\nDefObs == {%s}\n====\n" % (mod, tl(calls_e), tl(calls_c), ", ".join(recs)))
@@ -152,8 +152,12 @@ def run(rep, tier, seed, replay):
             crashed.append((c, evs))
             continue
         fin = [e for e in evs if e["e"] == "Final"][0]
-        out = {"e": [e["res"] for e in evs if e["e"] == "Ret" and e["t"] == "E"], "c": [e["res"] for e in evs if e["e"] == "Ret" and e["t"] == "C"],
-               "state": fin["state"], "loaded": fin["nctx"] > 0}
+        crets = [e for e in evs if e["e"] == "Ret" and e["t"] == "C"]
+        grant = next((e for e in crets if e["res"] == "ok" and e["a"] in ("stop", "abort")), None)
+        out = {"e": [e["res"] for e in evs if e["e"] == "Ret" and e["t"] == "E"], "c": [e["res"] for e in crets],
+               "state": fin["state"], "loaded": fin["nctx"] > 0,
+               # instructions completed after the first acknowledged stop/abort returned (capped: the bound is what matters)
+               "after": min(5, fin["instr"] - grant["instr"]) if grant else 0}
         key = (c["script"], tuple(c["E"]), tuple(c["C"]))
         configs.setdefault(key, {}).setdefault(json.dumps(out, sort_keys=True), []).append(c)
     rep.traces += len(mt_cases)
@@ -167,22 +171,24 @@ def run(rep, tier, seed, replay):
         observed = [json.loads(o) for o in outs]
         r = mc("ctl_obs", True, err, list(ce), list(cc), observed, work, collect=True)
         rep.add_tlc(r, None)
-        if r.error and "NOTEFFECTIVE" not in r.out and "NOTALLOWED" not in r.out and not r.ok:
+        if r.error and "NOTEFFECTIVE" not in r.out and "KEEPSEXECUTING" not in r.out and "NOTALLOWED" not in r.out and not r.ok:
             raise vlib.MachineryError("outcome validation failed without verdict: %s" % (r.error or r.out[-1500:]))
         ndrift = r.out.count("NOTALLOWED")
         if ndrift:
             rep.notes.append("model-drift: %d observed outcome(s) of executor %s / controller %s / script %s are not outcomes of the atomic-sections mechanism model (property oracle holds)" % (ndrift, list(ce), list(cc), sname))
-        if "NOTEFFECTIVE" not in r.out:
+        if "NOTEFFECTIVE" not in r.out and "KEEPSEXECUTING" not in r.out:
             continue
         for o in observed:
             r1 = mc("ctl_obs1", True, err, list(ce), list(cc), [o], work, collect=True)
-            if "NOTEFFECTIVE" not in r1.out:
+            how = [h for tag, h in (("NOTEFFECTIVE", "scripts-remain"), ("KEEPSEXECUTING", "keeps-executing")) if tag in r1.out]
+            if not how:
                 continue
             c0 = outs[json.dumps(o, sort_keys=True)][0]
             granted = next((a for a, r_ in zip(cc, o["c"]) if r_ == "ok" and a in ("stop", "abort")), "?")
-            key = "C19/StopTakesEffect/%s" % granted
-            rep.finding(key, "StopTakesEffect: executor %s, controller %s, script %s: returns E=%s C=%s, final state %s, scripts left=%s under schedule %s: an acknowledged stop/abort had no effect"
-                        % (list(ce), list(cc), sname, o["e"], o["c"], o["state"], o["loaded"], "".join(c0["schedule"])),
+            # the finding is identified by the acknowledged action, the kind of script and the way the stop fails
+            key = "C19/StopTakesEffect/%s/%s/%s" % (granted, sname, "+".join(how))
+            rep.finding(key, "StopTakesEffect (%s): executor %s, controller %s, script %s: returns E=%s C=%s, final state %s, scripts left=%s, instructions after the acknowledgement=%s under schedule %s: an acknowledged stop/abort had no effect"
+                        % ("+".join(how), list(ce), list(cc), sname, o["e"], o["c"], o["state"], o["loaded"], o["after"], "".join(c0["schedule"])),
                         {"property": "C19", "kind": "mt", "key": key, "case": c0, "outcome": o})
             rep.found[key]["count"] += len(outs[json.dumps(o, sort_keys=True)]) - 1
     rep.evaluations = len(cases) + len(mt_cases)
